@@ -98,6 +98,11 @@ RECURSIVE DropLeadingBlanks(_), DropTrailingBlanks(_)
 DropLeadingBlanks(w) == IF w # <<>> /\ Head(w) = "<blank>" THEN DropLeadingBlanks(Tail(w)) ELSE w
 DropTrailingBlanks(w) == IF w # <<>> /\ w[Len(w)] = "<blank>" THEN DropTrailingBlanks(SubSeq(w, 1, Len(w) - 1)) ELSE w
 Comments(lead) == SelectSeq(lead, LAMBDA x : x # "" /\ x # "<blank>")
+\* the comments of the anchors a..Len(toks) of a token list, in order
+RECURSIVE AnchorComments(_, _, _)
+AnchorComments(toks, anchors, a) ==
+  IF a > Len(toks) THEN <<>>
+  ELSE (IF a \in anchors THEN Comments(toks[a].lead) ELSE <<>>) \o AnchorComments(toks, anchors, a + 1)
 C15_Failures(rec) ==
   LET o == rec.outs
       names == {n \in DOMAIN o : n \in PrettyNames /\ o[n].nerr = 0}
@@ -117,6 +122,10 @@ C15_Failures(rec) ==
         THEN {} ELSE {"statement_level_comment_lost_moved_or_altered"})
   \cup (IF \A n \in names : Len(nso[n]) # Len(ns) \/ \A a \in anchors : (Comments(got(n, a)) # Comments(want(a))) \/ got(n, a) = want(a)
         THEN {} ELSE {"blank_line_separation_not_kept"})
+  \* independent of how the real lexer reads the SOURCE: rec.gcomments are the statement-level comment
+  \* texts the generator put into the source text, in order
+  \cup (IF "gcomments" \notin DOMAIN rec \/ \A n \in names : Len(nso[n]) # Len(ns) \/ AnchorComments(nso[n], anchors, 1) = rec.gcomments
+        THEN {} ELSE {"comment_of_the_source_text_not_in_pretty_output"})
   \cup (IF \A j \in 1..Len(o["compact"].otoks) : Comments(o["compact"].otoks[j].lead) = <<>> THEN {} ELSE {"compact_output_contains_comment"})
   \* the same program without its comments compiles to the same compact code and the same pretty tokens
   \cup (IF "plain" \notin DOMAIN rec \/ rec.plain.compact = o["compact"].code THEN {} ELSE {"comment_alters_compact_code"})
